@@ -553,7 +553,7 @@ func (f *Frame) applyContract(ct *Contract, fn *ssa.Function, sig *types.Signatu
 	}
 	for _, rq := range ct.Requires {
 		if f.pure {
-			un.assume(st, f.evalClause(rq, env, st, st))
+			un.assume(st, f.evalAssume(rq, env, st, st))
 			continue
 		}
 		un.ord["call"]++
@@ -597,7 +597,7 @@ func (f *Frame) applyContract(ct *Contract, fn *ssa.Function, sig *types.Signatu
 						}
 						for _, en2 := range ct.Ensures {
 							if en2 != en {
-								un.assume(st, f.evalClause(en2, env, st, &old))
+								un.assume(st, f.evalAssume(en2, env, st, &old))
 							}
 						}
 						f.applyRecords(ct, env, st, &old)
@@ -637,7 +637,7 @@ func (f *Frame) applyContract(ct *Contract, fn *ssa.Function, sig *types.Signatu
 		env["result"] = outs[0]
 	}
 	for _, en := range ct.Ensures {
-		un.assume(st, f.evalClause(en, env, st, &old))
+		un.assume(st, f.evalAssume(en, env, st, &old))
 	}
 	f.applyRecords(ct, env, st, &old)
 	return res
@@ -683,6 +683,51 @@ func shortFn(name string) string {
 func (f *Frame) applyMods(mods []string, env map[string]Val, st *State, old *State) {
 	un := f.un
 	var all []modEntry
+	// `when p is *T: item`: dropped when the dynamic type of p is known to be another one
+	{
+		var kept []string
+		for _, m := range mods {
+			if g, rest, ok := modGuard(m); ok {
+				parts := strings.SplitN(g, "|", 3)
+				if v, have := env[parts[1]]; have && v.Dyn != nil {
+					pkg := parts[0]
+					if pkg == "" {
+						pkg = f.clausePkg
+					}
+					if want := un.eng.lookupTypeIn(parts[2], pkg); want != nil && !types.Identical(v.Dyn, want) {
+						continue
+					}
+				}
+				m = rest
+			}
+			kept = append(kept, m)
+		}
+		mods = kept
+	}
+	// effects(p): whatever the function passed for the parameter p may modify (its declared or inferred frame), any number of times
+	{
+		var kept []string
+		for _, m := range mods {
+			mm := strings.TrimSpace(m)
+			if strings.HasPrefix(mm, "effects(") && strings.HasSuffix(mm, ")") {
+				pn := strings.TrimSpace(mm[8 : len(mm)-1])
+				names := map[string]bool{}
+				if v, ok := env[pn]; ok && v.Clo != nil {
+					// precise when the closure has a contract whose frame can be evaluated on its captured variables
+					if ct2 := un.eng.contractFor(v.Clo.Fn); ct2 != nil && ct2.HasMod && f.applyClosureMods(ct2, v.Clo, st, old) {
+						continue
+					}
+					un.eng.fnMods(v.Clo.Fn, nil, names)
+				} else {
+					names["*nonghost"] = true
+				}
+				f.havocHeaps(st, names)
+				continue
+			}
+			kept = append(kept, m)
+		}
+		mods = kept
+	}
 	// except(item): heaps that a `*` leaves alone
 	saved := map[string]Term{}
 	for _, m := range mods {
@@ -798,6 +843,43 @@ func (f *Frame) modTypeOf(e Expr, env map[string]Val) types.Type {
 	return nil
 }
 
+// applyClosureMods havocs what the contract of a closure declares, evaluated on the closure's captured variables (its
+// parameters are unknown: an item that mentions one makes the attempt fail and the caller falls back to heap names).
+func (f *Frame) applyClosureMods(ct *Contract, clo *Closure, st *State, old *State) (ok bool) {
+	un := f.un
+	env := map[string]Val{}
+	for i, fv := range clo.Fn.FreeVars {
+		if i >= len(clo.Bind) {
+			return false
+		}
+		b := clo.Bind[i]
+		if pt, isPtr := fv.Type().Underlying().(*types.Pointer); isPtr {
+			lv := b.LV
+			if lv == nil {
+				lv = un.lvOfPointer(b.T, fv.Type())
+			}
+			env[fv.Name()] = Val{T: un.readLV(lv, st), Go: pt.Elem(), LVSelf: lv}
+		} else {
+			env[fv.Name()] = b
+		}
+	}
+	saved := st.clone()
+	defer func() {
+		if r := recover(); r != nil {
+			if _, u := r.(unsupported); !u {
+				panic(r)
+			}
+			*st = saved
+			ok = false
+		}
+	}()
+	savedPkg := f.clausePkg
+	f.clausePkg = ct.Pkg
+	defer func() { f.clausePkg = savedPkg }()
+	f.applyMods(ct.Modifies, env, st, old)
+	return true
+}
+
 // exceptItem recognises `except(item)` in a modifies list.
 func exceptItem(m string) (string, bool) {
 	m = strings.TrimSpace(m)
@@ -851,6 +933,11 @@ func (f *Frame) resolveMod(m string, env map[string]Val, st *State) []modEntry {
 		hn := un.elemHeap(sl.Elem())
 		un.heapInit(hn, ArrSort(SInt, ArrSort(SInt, un.u.SortOf(sl.Elem()))))
 		return []modEntry{{heap: hn, ref: SBase(cv.T), rows: true}}
+	case m == "newrows(byteslices)":
+		bt := types.NewSlice(types.Typ[types.Uint8])
+		hn := un.elemHeap(bt)
+		un.heapInit(hn, ArrSort(SInt, ArrSort(SInt, SSlice)))
+		return []modEntry{{heap: hn, rows: true}}
 	case m == "newrows(bytes)":
 		hn := un.elemHeap(types.Typ[types.Uint8])
 		un.heapInit(hn, ArrSort(SInt, ArrSort(SInt, SInt)))
